@@ -520,7 +520,8 @@ func setGenExpr(t *schema.Table, c *schema.Column, f int64) error {
 	if !sqlx.Has(t.Attrs, &s) {
 		return fmt.Errorf("missing CREATE statement for table: %q", t.Name)
 	}
-	re, err := regexp.Compile(fmt.Sprintf("(?:[(,]\\s*)[\"`\\[]*(%s)[\"`\\]]*[^,]*(?i:GENERATED\\s+ALWAYS)*\\s*(?i:AS){1}\\s*\\(", c.Name))
+	// The name should be followed by a closing quote or a space, to avoid matching a column that this name is a prefix of.
+	re, err := regexp.Compile(fmt.Sprintf("(?:[(,]\\s*)[\"`\\[]*(%s)(?:[\"`\\]]+|\\s)[^,]*(?i:GENERATED\\s+ALWAYS)*\\s*(?i:AS){1}\\s*\\(", regexp.QuoteMeta(c.Name)))
 	if err != nil {
 		return err
 	}
